@@ -277,7 +277,7 @@ func (a *Asm) blockAfter(label string) []ALine {
 		if l.IsMark {
 			continue
 		}
-		if l.Label != "" {
+		if l.Label != "" || l.BlankBefore {
 			break
 		}
 		out = append(out, l)
